@@ -57,6 +57,7 @@ class Sim:
         self.drift_p = drift_p
         self.max_steps = max_steps
         self.trace_prefixes = (os.path.join(REPO, "reactivex"),) + tuple(trace_extra)
+        self.opcode_files = ()  # file-name fragments whose frames yield at every bytecode instead of every line
         self._root = REPO.rstrip("/") + "/"
         self._cut = len(self._root)
         self.switch_log = []  # (step, from, to, site) at every context switch
@@ -214,8 +215,11 @@ class Sim:
 
     # ------------------------------------------------------------ tracing
     def tracer(self, frame, event, arg):
-        if not frame.f_code.co_filename.startswith(self.trace_prefixes):
+        fn = frame.f_code.co_filename
+        if not fn.startswith(self.trace_prefixes):
             return None
+        if self.opcode_files and any(f in fn for f in self.opcode_files):
+            frame.f_trace_opcodes = True  # threads switch between bytecodes: a read-modify-write inside one line is a window too
         if self.trace_hook is not None:
             return self.trace_hook(frame, event, arg)
         return self.local_tracer
@@ -224,6 +228,9 @@ class Sim:
         if event == "line" or event == "return":
             fn = frame.f_code.co_filename
             self.yield_point((fn[self._cut:] if fn.startswith(self._root) else fn[-40:], frame.f_lineno))
+        elif event == "opcode":
+            fn = frame.f_code.co_filename
+            self.yield_point((fn[self._cut:] if fn.startswith(self._root) else fn[-40:], frame.f_lineno, frame.f_lasti))
         return self.local_tracer
 
 
@@ -686,9 +693,10 @@ import logging
 logging.getLogger("Rx").setLevel(logging.ERROR)
 
 
-def run_sim(body, seed, cps=(), record=False, spurious_p=0.0, drift_p=0.0, trace_extra=(), wall=150.0, max_steps=400000, setup=None):
+def run_sim(body, seed, cps=(), record=False, spurious_p=0.0, drift_p=0.0, trace_extra=(), wall=150.0, max_steps=400000, setup=None, opcode_files=()):
     """Run `body(sim, shim)` as the main workload thread under a fresh simulator with reactivex patched."""
     sim = Sim(seed, cps or (), record, spurious_p, drift_p, max_steps, trace_extra)
+    sim.opcode_files = tuple(opcode_files or ())
     shim = make_shim(sim)
     saved = patch(sim, shim)
     try:
@@ -767,6 +775,8 @@ def explore(sc, body_factory, out, **kw):
     focus = kw.pop("focus", ())
     spurious = sched.get("spurious", 0.0)
     drift = sched.get("drift", 0.0)
+    if sched.get("opcodes"):
+        kw["opcode_files"] = focus  # bytecode-level pre-emption points in the files that hold the mechanism under test
     if cps is None:
         if sched.get("k", 0) > 0:
             dry = run_sim(body_factory(), sched["seed"], (), record=True, **kw)
@@ -785,10 +795,12 @@ def explore(sc, body_factory, out, **kw):
     return sim, cps
 
 
-def gen_sched(rng, ks=(0, 1, 2, 2, 3, 3), spurious_p=0.0, drift_p=0.0, sweep_p=0.0):
+def gen_sched(rng, ks=(0, 1, 2, 2, 3, 3), spurious_p=0.0, drift_p=0.0, sweep_p=0.0, opcode_p=0.3):
     d = {"seed": rng.getrandbits(32), "k": rng.choice(ks),
          "spurious": rng.choice([0.0, spurious_p]) if spurious_p else 0.0,
          "drift": rng.choice([0.0, 0.0, drift_p]) if drift_p else 0.0}
+    if opcode_p and rng.random() < opcode_p:
+        d["opcodes"] = True  # pre-emption points at every bytecode of the focus files (else: at every line)
     if sweep_p and rng.random() < sweep_p:
         d["sweep"] = True  # this scenario gets a single-pre-emption sweep (th.sweep) instead of k sampled change points
         d["spurious"] = d["drift"] = 0.0
